@@ -76,8 +76,13 @@ def _container_span(src, container):
     lo, hi, depth = 0, len(src.text), 0
     for kind, name in container:
         if kind == "impl":
+            # `HEADER#k` selects the k-th impl block with that header (several inherent impls may share one)
+            ordinal = None
+            mo = re.match(r"^(.*)#(\d+)$", name.strip())
+            if mo:
+                name, ordinal = mo.group(1), int(mo.group(2))
             want = norm_ws(name)
-            found = None
+            cands = []
             for m in re.finditer(r"\bimpl\b", src.masked[lo:hi]):
                 p = lo + m.start()
                 if src.depth[p] != depth:
@@ -87,12 +92,14 @@ def _container_span(src, container):
                     continue
                 header = norm_ws(src.text[p:b])
                 if header == want:
-                    if found is not None:
-                        raise ExtractError(f"ambiguous impl header {name!r} in {src.rel}")
-                    found = (p, b)
-            if found is None:
+                    cands.append((p, b))
+            if not cands:
                 raise ExtractError(f"impl header {name!r} not found in {src.rel}")
-            p, b = found
+            if ordinal is None and len(cands) > 1:
+                raise ExtractError(f"ambiguous impl header {name!r} in {src.rel} ({len(cands)} blocks; use #k)")
+            if ordinal is not None and ordinal > len(cands):
+                raise ExtractError(f"impl header {name!r}#{ordinal} not found in {src.rel}")
+            p, b = cands[(ordinal or 1) - 1]
         else:
             p = _find_keyword(src, kind, name, lo, hi, depth)
             b = find_top_level(src.masked, "{;", p)
